@@ -1,6 +1,8 @@
 #![allow(dead_code)]
 //! `mc check <ID> <quick|thorough>` | `mc worker ..` (internal) | `mc replay <file>` | `mc selftest` | `mc list`
+mod c18cmp;
 mod check;
+mod conformance;
 mod ops;
 mod progscene;
 mod trace;
@@ -44,6 +46,8 @@ fn main() {
         }
         Some("replay") => check::replay_main(&props, args.get(2).expect("replay file")),
         Some("selftest") => selftest::main(),
+        Some("conformance") => conformance::main(),
+        Some("c18-compare") => c18cmp::main(args.get(2).map(String::as_str).unwrap_or("quick")),
         Some("list") => {
             for p in &props {
                 for t in [Tier::Quick, Tier::Thorough] {
